@@ -1,6 +1,7 @@
 package rules
 
 import (
+	"os"
 	"fmt"
 	"go/types"
 	"strings"
@@ -212,9 +213,36 @@ func c10(e *Env) {
 		}
 	}
 	plain, joined := false, false
+	type upCase struct {
+		u      upd
+		isJoin bool
+	}
+	var upCases []upCase
 	for _, u := range need("Upstream") {
+		// one update may serve both kinds of input (the IPs to link are chosen by a helper): every alternative of
+		// the key is classified
+		hasPlain, hasJoin := false, false
+		for _, alt := range u.key.DeepAlts(8) {
+			as := alt.String()
+			if os.Getenv("RULE_DEBUG") == "C10" {
+				fmt.Println("Upstream key alt:", as)
+			}
+			if strings.Contains(as, "subStreamIPs[") {
+				hasJoin = true
+			} else {
+				hasPlain = true
+			}
+		}
+		if hasPlain {
+			upCases = append(upCases, upCase{u, false})
+		}
+		if hasJoin {
+			upCases = append(upCases, upCase{u, true})
+		}
+	}
+	for _, uc := range upCases {
+		u, isJoin := uc.u, uc.isJoin
 		ks, vs := u.key.String(), u.val.String()
-		isJoin := strings.Contains(ks, "subStreamIPs[")
 		key := "Upstream"
 		if isJoin {
 			key = "Upstream(join)"
